@@ -401,16 +401,17 @@ theorem fileToks_length (rs : List RuleSrc) : rs.length ≤ (rs.flatMap ruleSrcT
     rw [List.flatMap_cons, List.length_append, List.length_cons]
     omega
 
-/-- `Parser.__init__` on a written, alias-free file -/
-theorem parseTokens_file (cfg : Cfg) (rs : List RuleSrc) (hne : rs ≠ []) (hok : srcsOk cfg [] rs = true) :
-    parseTokens cfg [] [] (rs.flatMap ruleSrcToks) = .ok (denote cfg [] rs, []) := by
-  have hloop := mainLoop_file cfg rs [] [] ((rs.flatMap ruleSrcToks).length + 1) hok
+/-- `Parser.__init__` on a written, alias-free file, after the rules of earlier files -/
+theorem parseTokens_file (cfg : Cfg) (earlier : List Rule) (rs : List RuleSrc) (hne : rs ≠ [])
+    (hok : srcsOk cfg earlier rs = true) :
+    parseTokens cfg earlier [] (rs.flatMap ruleSrcToks) = .ok (denote cfg earlier rs, []) := by
+  have hloop := mainLoop_file cfg rs earlier [] ((rs.flatMap ruleSrcToks).length + 1) hok
     (by have := fileToks_length rs; omega)
   have hids : (conditionIdentifiers (rs.flatMap ruleSrcToks) false).any (fun n => !cfg.sigs.contains n) = false := by
     rw [List.any_eq_false]
     intro x hx
     obtain ⟨r, hr, hxr⟩ := condIds_file rs false x hx
-    have := srcsOk_profiles cfg rs [] hok r hr x (idsOf_ppOr r.conds x hxr)
+    have := srcsOk_profiles cfg rs earlier hok r hr x (idsOf_ppOr r.conds x hxr)
     rw [this]; simp
   unfold parseTokens
   cases htoks : rs.flatMap ruleSrcToks with
@@ -420,13 +421,45 @@ theorem parseTokens_file (cfg : Cfg) (rs : List RuleSrc) (hne : rs ≠ []) (hok 
     | cons r rest => simp [List.flatMap_cons, ruleSrcToks] at htoks
   | cons t rest =>
     rw [htoks] at hloop hids
-    have hst : ({ cur := some t, rest := rest, aliases := [], rules := [] } : PS) = ofStream (t :: rest) [] [] := rfl
+    have hst : ({ cur := some t, rest := rest, aliases := [], rules := earlier } : PS) = ofStream (t :: rest) [] earlier := rfl
     simp only [List.forM_nil, List.map_nil, bind, Except.bind, pure, Except.pure, hst, hloop]
-    have hc : (ofStream [] ((t :: rest).reverse ++ []) (denote cfg [] rs)).consumed.reverse = t :: rest := by
+    have hc : (ofStream [] ((t :: rest).reverse ++ []) (denote cfg earlier rs)).consumed.reverse = t :: rest := by
       simp [ofStream]
-    have hr : (ofStream [] ((t :: rest).reverse ++ []) (denote cfg [] rs)).rules = denote cfg [] rs := rfl
-    have ha : (ofStream [] ((t :: rest).reverse ++ []) (denote cfg [] rs)).aliases = [] := rfl
+    have hr : (ofStream [] ((t :: rest).reverse ++ []) (denote cfg earlier rs)).rules = denote cfg earlier rs := rfl
+    have ha : (ofStream [] ((t :: rest).reverse ++ []) (denote cfg earlier rs)).aliases = [] := rfl
     simp only [hc, hids, hr, ha]
     rfl
+
+theorem denote_append (cfg : Cfg) : ∀ (a b : List RuleSrc) (earlier : List Rule),
+    denote cfg earlier (a ++ b) = denote cfg (denote cfg earlier a) b := by
+  intro a
+  induction a with
+  | nil => intro b earlier; rfl
+  | cons r rest ih => intro b earlier; simp only [List.cons_append, denote, ih]
+
+theorem srcsOk_append (cfg : Cfg) : ∀ (a b : List RuleSrc) (earlier : List Rule),
+    srcsOk cfg earlier (a ++ b) = (srcsOk cfg earlier a && srcsOk cfg (denote cfg earlier a) b) := by
+  intro a
+  induction a with
+  | nil => intro b earlier; simp [srcsOk, denote]
+  | cons r rest ih => intro b earlier; simp only [List.cons_append, srcsOk, denote, ih, Bool.and_assoc]
+
+/-- `create_rules` on several alias-free files: the rules of all files in order, each file seeing
+    the rules of the files before it -/
+theorem createRules_files (cfg : Cfg) : ∀ (files : List (String × List RuleSrc)) (earlier : List Rule),
+    (∀ f ∈ files, f.2 ≠ [] ∧ tokenise f.1 = .ok (f.2.flatMap ruleSrcToks)) →
+    srcsOk cfg earlier (files.flatMap (·.2)) = true →
+    createRules cfg (files.map (·.1)) earlier [] = .ok (denote cfg earlier (files.flatMap (·.2))) := by
+  intro files
+  induction files with
+  | nil => intro earlier _ _; rfl
+  | cons f rest ih =>
+    intro earlier hf hok
+    rw [List.flatMap_cons, srcsOk_append, Bool.and_eq_true] at hok
+    obtain ⟨hne, htok⟩ := hf f (by simp)
+    have := ih (denote cfg earlier f.2) (fun g hg => hf g (by simp [hg])) hok.2
+    simp only [List.map_cons, createRules, parseText, bind, Except.bind, htok,
+      parseTokens_file cfg earlier f.2 hne hok.1, List.flatMap_cons, denote_append]
+    exact this
 
 end ASV.Parser
